@@ -131,3 +131,34 @@ def declare(reg):
         note="the preconditions of the resync/pack callees (environment assumption E1, Inv(Mailbox)) are assumed at their call sites here; "
              "exceptions other than Bad raised by callees between dequeue and release are not modelled (the blanket `except Exception: ignore` would then leave the command waiting)",
     )
+
+    # ---- IMAPUserServer.shutdown (C12): every active mailbox is shut down WITH a commit ------------------------------------
+    U = "asimap/user_server.py"
+    reg.context_managers.append((r"asyncio\.TaskGroup\(\)", "opaque"))
+    reg.contract("<asyncio>", "ctx_tg.create_task", params={"self": "opaque:ctx_tg", "coro": "None"}, **T,
+                 note="A-ASYNC: the task runs to completion before the TaskGroup block is left; modelled as running when it is created "
+                      "(the mailboxes are distinct objects and Mailbox.shutdown touches only its own mailbox's row and queue)")
+    for nm in ("Database.commit", "Database.close"):
+        if nm not in reg.contracts:
+            reg.contract("<sqlite>", nm, params={"self": "ref:Database"}, yields=True, **T, note="A-DB: flushes / closes the connection; no row changes")
+    reg.contract("<stdlib>", "MH.close", params={"self": "ref:MH"}, **T, note="A-MH: no-op flush")
+    reg.contract(
+        U, "IMAPUserServer.shutdown", params={"self": "ref:IMAPUserServer"},
+        ensures={
+            "every-active-mailbox-committed": "forall(lambda k: implies(k in old(self.active_mailboxes), persisted(get(old(self.active_mailboxes), k))), 'str')",
+            "none-left-active": "forall(lambda k: k not in self.active_mailboxes, 'str')",
+        },
+        loops={
+            1: {"invariant": {"collected": "forall(lambda k: implies(k in _it and pos(_it, k) < _i, get(lpre(self.active_mailboxes), k) in mboxes), 'str')",
+                              "dict-kept": "same(self.active_mailboxes, lpre(self.active_mailboxes))"}},
+            2: {"invariant": {"done-prefix": "forall(lambda j: implies(0 <= j and j < _i, persisted(mboxes[j])))", "list-kept": "same(mboxes, lpre(mboxes))"}},
+        },
+        locals_={"mboxes": "list[ref:Mailbox]"},
+        modifies=["self.active_mailboxes", "Mailbox.deleted", "Queue.g_items", "Event.g_set", "Mailbox.g_db_exists", "Mailbox.g_db_uid_vv", "Mailbox.g_db_next_uid", "Mailbox.g_db_uids",
+                  "Mailbox.g_db_msg_keys", "Mailbox.g_db_subscribed", "Mailbox.g_db_num_msgs"],
+        ghost={"start_at": "mboxes = []",
+               "call_asserts": {"shutdown": {"orderly-shutdown-commits": "arg_commit_db"}}},
+        is_async=True,
+        props=["C12"],
+        note="verified from `mboxes = []` on (cancelling the management task and closing the client connections are outside the subset and touch no mailbox state)",
+    )
